@@ -46,6 +46,11 @@ impl<'a> ResourceRecordManager<'a> {
         let exp_info = ExpirationInfo::new(ttl);
         match self.resources.get_mut(&key) {
             Some(resources) => {
+                // a record registered as authoritative is not replaced by a cached copy,
+                // otherwise it would expire
+                if let Some(ResourceRecordType::Authoritative) = resources.get(&resource) {
+                    return;
+                }
                 resources.insert(resource, ResourceRecordType::Cached(exp_info));
             }
             None => {
